@@ -229,7 +229,7 @@ def run_case(desc, seed):
     if n >= 3:
         from mc import trees as TR
         from renormalizer.tn import TTNO
-        shapes = [[-1] + [0] * (n - 1)] + ([[-1, 0, 0, 1]] if n == 4 else [])
+        shapes = [[-1] + [0] * (n - 1)] + ([[-1, 0, 1, 0]] if n == 4 else [])   # parent vectors are preorder-numbered (the order of bond_dims)
         for parent in shapes:
             groups = [[i] for i in range(n)]
             sub = TR.tree_edges_bipartitions(parent, [tuple(g) for g in groups], n)
